@@ -47,6 +47,10 @@ type Decl struct {
 	// any set are listed directly.
 	Sets    [][]int
 	SetVars []string
+	// JointWith: providers of another, unreferenced Set variable ("otherSet") that is declared
+	// in one var spec together with the declaration's first set variable:
+	// var otherSet, mySet = kessoku.Set(...), kessoku.Set(...)
+	JointWith []Prov
 }
 
 type Program struct {
@@ -76,7 +80,7 @@ func (p *Program) allProvs() []Prov {
 	seen := map[string]bool{}
 	var out []Prov
 	for _, d := range p.Decls {
-		for _, pr := range d.Provs {
+		for _, pr := range append(append([]Prov{}, d.Provs...), d.JointWith...) {
 			if pr.Kind == KFunc && !pr.External && !seen[pr.Name] {
 				seen[pr.Name] = true
 				out = append(out, pr)
@@ -281,8 +285,18 @@ func (p *Program) Emit(bodyOf func(pr Prov) string, extraImports []string) map[s
 			}
 			return "kessoku.Set(" + strings.Join(es, ", ") + ")"
 		}
+		jointDone := false
 		for si := range d.Sets {
 			if si < len(d.SetVars) && d.SetVars[si] != "" {
+				if len(d.JointWith) > 0 && !jointDone {
+					jointDone = true
+					var es []string
+					for _, pr := range d.JointWith {
+						es = append(es, provExpr(pr))
+					}
+					fmt.Fprintf(&b, "var otherSet, %s = kessoku.Set(%s), %s\n\nvar _ = otherSet\n\n", d.SetVars[si], strings.Join(es, ", "), setExpr(si))
+					continue
+				}
 				fmt.Fprintf(&b, "var %s = %s\n\n", d.SetVars[si], setExpr(si))
 			}
 		}
